@@ -37,6 +37,8 @@ PASS_FIRST = {
 MAP_LIKE = {'std::result::Result::map', 'std::option::Option::map',
             'std::result::Result::and_then', 'std::option::Option::and_then'}
 SUCCESS_VARIANTS = {'Ok', 'Some', 'Continue'}
+FAILURE_VARIANTS = {'Err', 'None', 'Break'}
+WRAPPER_ADTS = ('std::result::Result', 'std::option::Option', 'std::ops::ControlFlow')
 
 
 def show(t, depth=0):
@@ -212,7 +214,12 @@ def payload(t):
     """success payload of a Result/Option/ControlFlow-typed term (wrappers erased)"""
     k = t[0]
     if k == 'any':
-        return mk_any([payload(x) for x in t[1]])
+        # the success payload of `Ok(v) | Err(e)` is v: failure alternatives carry no payload (they arise when a helper that
+        # returns a Result has been inlined, so that both of its return values are visible)
+        xs = [x for x in t[1] if not (x[0] == 'agg' and x[2] in FAILURE_VARIANTS and x[1] and x[1].startswith(WRAPPER_ADTS)) and x[0] != 'residual']
+        if not xs:
+            xs = list(t[1])
+        return mk_any([payload(x) for x in xs])
     if k == 'try':
         return payload(t[1])
     if k == 'agg' and t[2] in SUCCESS_VARIANTS:
